@@ -786,7 +786,7 @@ class Gen:
                 if iv:
                     v = r.choice(iv)
                     if v.cur == INT:
-                        return r.choice(["(%s %% 2 == 0)", "(%s > 1)", "(%s <= 0)", "(%s != 3)"]) % v.name, BOOL
+                        return r.choice(["(%s // 2 > 0)", "(%s > 1)", "(%s <= 0)", "(%s != 3)"]) % v.name, BOOL
                     if v.cur == STR:
                         return r.choice(['(%s != "")', '(len(%s) > 1)', '(%s < "b")']) % v.name, BOOL
                     return v.name, BOOL
@@ -1074,7 +1074,7 @@ class ExprGen(Gen):
         if ch == 0:
             return "(%s %s %s)" % (e(INT), r.choice(["+", "-", "+"]), e(INT)), INT
         if ch == 1:
-            return "(%s %s %s)" % (e(INT), r.choice(["*", "%", "//"]), r.choice(["2", "3", "7"])), INT
+            return "(%s %s %s)" % (e(INT), r.choice(["*", "//", "//"]), r.choice(["2", "3", "7"])), INT
         if ch == 2:
             vs = self.vars_kind(env, ("str", "list", "dict", "set", "tuple", "bytes", "vtuple", "seq"))
             return "len(%s)" % (r.choice(vs).name if vs and r.random() < 0.7 else e(STR)), INT
@@ -1519,6 +1519,11 @@ class CondGen(ExprGen):
                 o = "isinstance"
             k = 1 if (o == "typeis" or r.random() < 0.7) else 2
             cs = r.sample(cands, min(k, len(cands)))
+            if len(cs) > 1 and any(c[0] == "bare" for c in cs):
+                # fenced off: isinstance(x, (C, list)) with a bare generic container in the tuple makes mypy lose a
+                # later try-body assignment at the merge after the `if` (known finding, witness replay kept)
+                self.lab("excluded:isinstance-tuple-with-bare-container")
+                cs = cs[:1]
             if not self.cfg.iaf and any(c == FLOAT for c in cs) and False:
                 return None
             res = self.nar_isinstance(cur, cs)
@@ -1808,7 +1813,7 @@ class StmtGen(CondGen):
         e = lambda ty: self.e(ty, env, 1)
         k = c[0]
         if k == "int" or k == "bool":
-            return r.choice(["(%s + %s)" % (n, e(INT)), "%s.bit_length()" % n, "(%s %% 5)" % n, "(-%s)" % n, "(%s < %s)" % (n, e(INT)), "[%s][0]" % n, "(%s * 2)" % n, '"ab"[:%s]' % n])
+            return r.choice(["(%s + %s)" % (n, e(INT)), "%s.bit_length()" % n, "(%s // 5)" % n, "(-%s)" % n, "(%s < %s)" % (n, e(INT)), "[%s][0]" % n, "(%s * 2)" % n, '"ab"[:%s]' % n])
         if k == "str":
             return r.choice(["%s.upper()" % n, "(%s + %s)" % (n, e(STR)), "len(%s)" % n, "%s.startswith(%s)" % (n, e(STR)), "%s[:1]" % n, "%s.split()" % n, "(%s * 2)" % n])
         if k == "float":
@@ -2057,7 +2062,7 @@ class StmtGen(CondGen):
         lv = self.fresh("x")
         newvars = []
         if not srcs or r.random() < 0.2:
-            self.emit("for %s in range(%s):" % (lv, r.choice(["2", "3", "4", self.e(INT, env, 0) + " % 4"])))
+            self.emit("for %s in range(%s):" % (lv, r.choice(["2", "3", "4", "min(abs(%s), 3)" % self.e(INT, env, 0)])))
             newvars.append(Var(lv, INT, frozen=True, form="for-target"))
         else:
             s = r.choice(srcs)
